@@ -423,7 +423,7 @@ var recN int
 func recoverImage(im *drv.Image, override map[string][]byte, drop map[string]bool, k cfg, full bool) string {
 	conf := k.conf
 	recN++
-	dir := fmt.Sprintf("/dev/shm/verif-e3-%d/rec%d", pid(), recN)
+	dir := fmt.Sprintf("%s/verif-e3-%d/rec%d", mc.ShmBase(), pid(), recN)
 	im.Write(dir, override, drop)
 	defer removeAll(dir)
 	res := ""
